@@ -31,6 +31,24 @@ def encode(hrp, ver, prog):
     return hrp + "1" + "".join(CH[x] for x in d)
 
 
+def raw_encode(hrp, d, const):
+    """hrp + '1' + data symbols d + a checksum that verifies against `const` (1 = bech32, M = bech32m)"""
+    d = list(d)
+    pm = polymod(expand(hrp) + d + [0] * 6) ^ const
+    d += [(pm >> 5 * (5 - i)) & 31 for i in range(6)]
+    return hrp + "1" + "".join(CH[x] for x in d)
+
+
+def to5(prog):
+    acc = bits = 0; d = []
+    for b in prog:
+        acc = (acc << 8) | b; bits += 8
+        while bits >= 5:
+            bits -= 5; d.append((acc >> bits) & 31)
+    if bits: d.append((acc << (5 - bits)) & 31)
+    return d
+
+
 def decode(hrp, s):
     """(version, program bytes) or None, following BIP173 + BIP350 decoding rules for segwit addresses"""
     if any(ord(c) < 33 or ord(c) > 126 for c in s): return None
